@@ -28,7 +28,7 @@ ASSUMPTIONS = ['the oracle is a freshly constructed real monitor fed only the po
 REAL = common.REAL_ALL
 STUBS = common.STUBS_ALL
 PROBES = ['reset_before_first_update', 'double_reset', 'second_reset_after_more_updates', 'with_subspecs', 'pastified', 'dense_time', 'counter_nonzero_before_reset',
-          'reset_matters', 'poisoned_update_did_not_raise', 'only_failed_updates_before_reset', 'reset_before_pastify', 'failed_update_right_after_a_reset']
+          'reset_matters', 'poisoned_update_did_not_raise', 'only_failed_updates_before_reset', 'reset_before_pastify', 'failed_update_right_after_a_reset', 'reconfigured_before_reset']
 INTERLEAVING_MEASURE = 'distinct (time domain, reset position, pre-history length, double-reset) tuples'
 
 
@@ -48,7 +48,19 @@ def gen(rng, tier):
         if sg.vars_of(ast) and any(x[0] in sg.TEMPORAL for x in sg.walk(ast)):
             break
     vars_ = [v for v in vars_]
-    if rng.random() < 0.25:
+    reconf = (not dense) and rng.random() < 0.08
+    if reconf:
+        # bounds with an explicit unit; before the reset the application switches the default unit AND the sampling period
+        # (seconds -> milliseconds): the same text then means 1000 times as many samples
+        ops_r = {'once_b', 'historically_b', 'and', 'or', 'not', 'implies', 'once', 'historically', 'prev'}
+        for _ in range(50):
+            ast = sg.gen_formula(rng, sg.GenCfg(vars=vars_, ops=ops_r, max_depth=rng.randint(2, 3), max_bound=2))
+            if sg.vars_of(ast) and any(x[0] in sg.TUN for x in sg.walk(ast)):
+                break
+        else:
+            reconf = False
+        future = False
+    if (not reconf) and rng.random() < 0.25:
         # a predicate whose left operand is a unary arithmetic operation over a sensor and whose right operand is a constant,
         # evaluated first: with a poisoned sample the update fails BEFORE the constant is reached
         un = [o for o in ('abs', 'neg', 'exp') if o in ops] or ['abs']
@@ -56,7 +68,9 @@ def gen(rng, tier):
         ast = [rng.choice(['and', 'or', 'implies']), first, ast]
     pastify = any(x[0] in sg.FUTURE_OPS for x in sg.walk(ast)) or rng.random() < 0.1
     modular = None
-    if rng.random() < 0.35:
+    if reconf:
+        pastify = False
+    if (not reconf) and rng.random() < 0.35:
         defs, top = sg.modularize(rng, ast)
         modular = {'defs': defs, 'top': top, 'declare': rng.random() < 0.5, 'via': rng.choice(['add_sub_spec', 'text'])}
     m = rng.randint(0, 10 if tier == 'thorough' else 8)
@@ -91,7 +105,7 @@ def gen(rng, tier):
     pv = ast[1][2][1][1] if (ast[0] in ('and', 'or', 'implies') and ast[1][0] == 'pred' and ast[1][2][0] in ('abs', 'neg', 'exp')
                              and ast[1][2][1][0] == 'var' and rng.random() < 0.7) else rng.choice(sg.vars_of(ast))
     poison = {'at': (rng.choice([0, 0, rng.randrange(m)]) if m else 0), 'var': pv} if rng.random() < 0.45 else None
-    return {'early': rng.random() < 0.4, 'poison': poison, 'poison_mid': rng.random() < 0.5, 'dense': dense, 'cls': cls, 'vars': vars_, 'ast': ast, 'modular': modular, 'pastify': pastify, 'pre': pre,
+    return {'reconf': reconf, 'early': rng.random() < 0.4, 'poison': poison, 'poison_mid': rng.random() < 0.5, 'dense': dense, 'cls': cls, 'vars': vars_, 'ast': ast, 'modular': modular, 'pastify': pastify, 'pre': pre,
             'post': post, 'double_at': rng.randint(0, m), 'text': None, 'spell_seed': rng.randrange(1 << 30), 'mid_len': mid_len}
 
 
@@ -112,6 +126,8 @@ def spec_desc(sc):
         else:
             desc['subspecs'] = subs
             desc['spec'] = top
+    elif sc.get('reconf'):
+        desc['spec'] = 'out = ' + sg.to_text(sc['ast'], sp, lambda lo, hi, sp_: '[%ds:%ds]' % (lo, hi)) + ';'
     else:
         desc['spec'] = 'out = ' + sg.to_text(sc['ast'], sp, bp) + ';'
     return desc
@@ -301,6 +317,28 @@ def run(sc):
                     matters = True
             except M.ApiCrash:
                 matters = True
+    if sc.get('reconf') and not r.violations:
+        newcfg = {'unit': 'ms', 'sampling': [1, 'ms', 0.1]}
+        post2 = [[i, u[1]] for i, u in enumerate(post)]          # the post episode is stamped in milliseconds, 1 ms apart
+        try:
+            fresh2 = M.build(dict(desc, **newcfg))
+            want2 = [step(fresh2, sc, u) for u in post2]
+            mon = M.build(desc)
+            feed_pre(mon, sc, pre, r)
+            M.apply_config(mon, {}, newcfg)
+            M.api('reset', mon.reset)
+            got2 = [step(mon, sc, u) for u in post2]
+            r.faults['reconfigured_before_reset'] += 1
+            r.probes['reconfigured_before_reset'] += 1
+            r.evals += len(post2)
+            for i, (g, w) in enumerate(zip(got2, want2)):
+                if not same(g, w, False):
+                    r.violate('post-reset-output-equals-fresh', episode='after re-configuration and reset', step=i, got=g, want=w,
+                              spec=desc, new_configuration=newcfg, pre=pre, post=post2)
+                    break
+        except M.ApiCrash as e:
+            r.crashes[e.exc_type] += 1
+            r.violate('raised-around-reset', episode='after re-configuration and reset', spec=desc, **e.describe())
     if sc.get('modular'):
         r.probes['with_subspecs'] += 1
     if sc.get('pastify'):
@@ -324,6 +362,8 @@ def shrinks(sc):
         c = copy.deepcopy(sc)
         c['early'] = False
         yield c
+    if sc.get('reconf'):
+        return       # (the directed re-configuration scenario is not minimised further than its histories)
     if sc.get('mid_len'):
         for ml in (0, sc['mid_len'] - 1):
             c = copy.deepcopy(sc)
